@@ -31,6 +31,7 @@ structure S where
   closeSeen : Bool := false
   loopExited : Bool := false
   winnerErrObs : String := ""
+  panicOwed : Bool := false          -- the active handler panicked while the channel was open: the exception handlers must see it
   deriving Inhabited
 
 def lookup (l : List (String × String)) (k : String) : Option String := (l.find? (·.1 == k)).map (·.2)
@@ -68,12 +69,15 @@ def onEvent (s : S) (tid : String) (ev : String) : S :=
   match ev.splitOn ":" with
   | ["active", "b"] => ({ s with activeB := s.activeB + 1 }).ev .activeBegin ev
   | ["active", "e"] => ({ s with activeEAt := some s.stepNo }).ev .activeEnd ev
+  | ["active", "p"] => ({ s with activeEAt := some s.stepNo, panicOwed := !s.closeSeen }).ev .activePanic ev
+  | ["exc", cls] => ({ s with panicOwed := false, lastFail := assoc s.lastFail tid cls }).ev .exception ev
   | ["handout"] =>
     let s := if s.activeEAt.isNone then s.bad "the channel was handed out before the active event completed" else s
     ({ s with handoutAt := some s.stepNo }).ev .handOut ev
   | ["read", "b"] =>
     let s := if s.activeEAt.isNone then s.bad "a read was delivered before the active event completed" else s
     let s := if s.readsOpen > 0 then s.bad "two reads in flight at the same time" else s
+    let s := if s.panicOwed && !s.closeSeen then s.bad "a panic of the active handler never reached the exception handlers (the read loop went on)" else s
     ({ s with readsOpen := s.readsOpen + 1 }).ev .readBegin ev
   | ["read", "e", "ok"] => ({ s with readsOpen := s.readsOpen - 1, lastFail := s.lastFail.filter (·.1 != tid) }).ev (.readEnd true) ev
   | ["read", "e", "fail", cls] =>
@@ -103,6 +107,7 @@ def specEnd (s : S) (how : String) : Option String :=
   if s.viol.isSome then s.viol else
   if how != "quiescent" then some s!"execution does not come to rest: {how}" else
   if s.activeB != 1 then some s!"active delivered {s.activeB} times" else
+  if s.panicOwed then some "a panic of the active handler never reached the exception handlers" else
   if s.handoutAt.isNone then some "the channel was never handed out (ServeChannel did not return)" else
   if s.readFailed && !s.closeSeen then some "a transport read failed but the channel was never closed" else
   if s.closeSeen then
